@@ -22,6 +22,7 @@ package pluginconfig
 //@ func Hook
 //@ props C17 C18
 //@ may_panic true
+//@ requires t != nil
 //@ at call plugin.New assert [name-and-settings-from-the-config] arg(pluginType) == t && arg(name) == result_of(parseConf, 0)
 //@ ensures [config-errors-are-returned] imp(calls(parseConf) == 1 && result_of(parseConf, 2) != nil, err == result_of(parseConf, 2))
 //@ ensures [creation-outcome-is-returned] imp(calls(plugin.New) == 1, p == result_of(plugin.New, 0) && err == result_of(plugin.New, 1))
@@ -29,6 +30,7 @@ package pluginconfig
 //@ func FactoryHook
 //@ props C17 C18
 //@ may_panic true
+//@ requires t != nil
 //@ at call plugin.NewFactory assert [name-and-settings-from-the-config] arg(factoryType) == t && arg(name) == result_of(parseConf, 0)
 //@ ensures [config-errors-are-returned] imp(calls(parseConf) == 1 && result_of(parseConf, 2) != nil, err == result_of(parseConf, 2))
 //@ ensures [creation-outcome-is-returned] imp(calls(plugin.NewFactory) == 1, p == result_of(plugin.NewFactory, 0) && err == result_of(plugin.NewFactory, 1))
